@@ -25,6 +25,18 @@ def degree(rnd, batch):
     return one()
 
 
+def degree_type(rnd, deg):
+    """how the degree is held: a float / float64 array (None), or - when the values allow it exactly - Python ints or an
+    integer array (degrees 0 and 1), or float32 (multiples of 1/16)"""
+    vals = deg if isinstance(deg, list) else [deg]
+    c = rnd.random()
+    if c < 0.15 and all(v in (0.0, 1.0) for v in vals):
+        return "int"
+    if c < 0.3 and all(v * 16 == int(v * 16) for v in vals):
+        return "float32"
+    return None
+
+
 def fuzzy_set(rnd, lo=None, hi=None, max_terms=5, batch=None, d=3, kinds=None):
     """spec of an Aggregated set over [lo, hi]: aggregation, and activated terms (term spec, degree(s), implication)"""
     if lo is None:
@@ -40,7 +52,7 @@ def fuzzy_set(rnd, lo=None, hi=None, max_terms=5, batch=None, d=3, kinds=None):
         t = G.shape_term(rnd, f"t{k}", lo, hi, kind=kind, d=d)
         # some activations keep a scalar degree inside a batch (broadcast)
         deg = degree(rnd, batch if (batch and rnd.random() < 0.85) else 0)
-        acts.append(dict(term=t, degree=deg, implication=rnd.choice(TNORMS + ["Minimum", "Minimum", "AlgebraicProduct"])))
+        acts.append(dict(term=t, degree=deg, implication=rnd.choice(TNORMS + ["Minimum", "Minimum", "AlgebraicProduct"]), degree_type=degree_type(rnd, deg)))
     # repeat a term now and then (several rules concluding the same term)
     if acts and rnd.random() < 0.25:
         a = rnd.choice(acts)
@@ -61,6 +73,11 @@ def build_set(fl, spec, row=None, terms_cache=None):
         deg = a["degree"]
         if isinstance(deg, list):
             deg = deg[row] if row is not None else np.array(deg)
+        kind = a.get("degree_type")
+        if kind == "int":
+            deg = deg.astype(np.int64) if isinstance(deg, np.ndarray) else int(deg)
+        elif kind == "float32":
+            deg = deg.astype(np.float32) if isinstance(deg, np.ndarray) else np.float32(deg)
         acts.append(fl.Activated(cache[key], deg, getattr(fl, a["implication"])()))
     return fl.Aggregated("set", spec["minimum"], spec["maximum"], getattr(fl, spec["aggregation"])(), acts)
 
